@@ -128,12 +128,40 @@ func genC11(t *rapid.T) PairCase {
 	default:
 		b = gen.EditN(t, a, p, 1, 5)
 	}
+	if gen.Chance(t, "deep", 25) {
+		a, b = gen.DeepPair(t, a, b, p)
+	}
 	// bias: empty objects at depth on either side
 	if gen.Chance(t, "emptyObjs", 25) {
 		a = sprinkleEmptyObjects(t, a)
 		b = sprinkleEmptyObjects(t, b)
 	}
 	return PairCase{A: val.JSON(a), B: val.JSON(b), Opts: opts}
+}
+
+// sprinkleNulls turns some scalar members of nested objects into null or {}.
+func sprinkleNulls(t *rapid.T, v val.V) val.V {
+	o, ok := v.(map[string]val.V)
+	if !ok {
+		return v
+	}
+	out := map[string]val.V{}
+	for _, k := range val.Keys(o) {
+		switch x := o[k].(type) {
+		case map[string]val.V:
+			out[k] = sprinkleNulls(t, x)
+		default:
+			switch r := gen.Int(t, "nullify", 0, 99); {
+			case r < 20:
+				out[k] = nil
+			case r < 28:
+				out[k] = map[string]val.V{}
+			default:
+				out[k] = x
+			}
+		}
+	}
+	return out
 }
 
 func sprinkleEmptyObjects(t *rapid.T, v val.V) val.V {
@@ -307,6 +335,15 @@ func genMergeDoc(t *rapid.T, target val.V) val.V {
 
 func genC12(t *rapid.T) MergeCase {
 	p := gen.Profile{MaxDepth: 3}
+	if gen.Chance(t, "deep", 30) {
+		// target and patch share a chain of up to 6 objects with siblings;
+		// the patch side gets nulls and empty objects sprinkled in
+		ta := gen.Object(t, p, 1)
+		pa := genMergeDoc(t, ta)
+		tv, pv := gen.DeepPair(t, ta, pa, p)
+		pv = sprinkleNulls(t, pv)
+		return MergeCase{Target: val.JSON(tv), Patch: val.JSON(pv)}
+	}
 	var target val.V
 	if gen.Chance(t, "objectTarget", 70) {
 		target = gen.Object(t, p, 0)
